@@ -1,5 +1,6 @@
 """C07  Validation is total: any input yields a verdict or a documented refusal."""
 import io
+import re
 
 from .. import core, docgen, observe, x12ref, mapmodel as mm
 from . import genfaulty, c02
@@ -13,7 +14,8 @@ RULE = ('Three entry points - x12n_document under every subset of {acknowledgeme
         'second ISA mid-file, unknown GS08/ISA12, leading blank, trailing separators, control-character delimiters. Oracle: outcome '
         'is a bool, or pyx12.errors.X12Error, or EngineError whose message starts "Map not found"; anything else is bucketed by '
         '(entry point, exception type, innermost pyx12 file:function). Non-trivial = the input got past the GS (>=1 body segment '
-        'reached the walker); distinct by digest of (text, sinks, charset, loop id).')
+        'reached the walker); distinct by digest of (text, sinks, charset, loop id). Thorough adds 8 atheris/libFuzzer campaigns of 6000 runs '
+        '(bytes decoded as an edit script over fixture documents, same oracle inside the target).')
 ASSUMPTIONS = ['X12Error is accepted as the documented refusal wherever it is raised', 'each case runs under a 60 s watchdog; a timeout is inconclusive, not a violation']
 
 SINKS = [(a, h, x) for a in (0, 1) for h in (0, 1) for x in (0, 1)]
@@ -314,16 +316,65 @@ def run_misc(n, seed, acc):
     core.hyp_collect(case(), check_case, n, seed, acc, case_timeout=60)
 
 
+def run_atheris(spec, seed, acc):
+    """coverage-guided campaign (thorough tier): libFuzzer mutates an edit script over fixture documents; the oracle is
+    inside the target (vpx/fuzz_c07.py); a crash input is decoded again here and bucketed through check_case"""
+    import glob
+    import os
+    import subprocess
+    import sys
+    import tempfile
+    try:
+        import atheris      # noqa: F401
+    except Exception:
+        acc.classes['atheris-not-installed'] += 1
+        acc.evaluations += 1
+        return
+    from .. import fuzz_c07
+    wd = tempfile.mkdtemp(prefix='vpx_c07_ath_')
+    try:
+        os.makedirs(os.path.join(wd, 'corpus'))
+        cmd = [sys.executable, '-W', 'ignore', '-m', 'vpx.fuzz_c07', '-runs=%d' % spec['runs'], '-seed=%d' % (seed * 100 + spec['i']),
+               '-max_len=256', '-timeout=60', '-artifact_prefix=' + wd + os.sep, os.path.join(wd, 'corpus')]
+        p = subprocess.run(cmd, capture_output=True, text=True, cwd=core.VERIF, timeout=3000)
+        m = re.search(r'Done (\d+) runs', p.stderr)
+        done = int(m.group(1)) if m else 0
+        acc.evaluations += done
+        acc.classes['atheris-runs'] += done
+        m = re.findall(r'cov: (\d+)', p.stderr)
+        if m:
+            acc.extra.setdefault('atheris_final_coverage', {})['shard-%d' % spec['i']] = int(m[-1])
+        arts = glob.glob(os.path.join(wd, 'crash-*')) + glob.glob(os.path.join(wd, 'timeout-*'))
+        st_ = fuzz_c07.seeds()
+        for a in arts:
+            data = open(a, 'rb').read()
+            case = fuzz_c07.decode(data, st_)
+            out = check_case(case)
+            if not out.failures:
+                acc.classes['atheris-crash-not-reproduced-in-fresh-state'] += 1
+            acc.add(case, out)
+        if p.returncode != 0 and not arts:
+            acc.classes['atheris-abnormal-exit'] += 1
+    finally:
+        import shutil
+        shutil.rmtree(wd, ignore_errors=True)
+
+
 def shards(tier, seed):
     s = [{'kind': 'gen', 'entry': e, 'i': i, 'n': 700 if tier == 'thorough' else 40} for i, e in enumerate(genfaulty.entries(exclude_ack=False))]
     for k in range(4):
         s.append({'kind': 'misc', 'i': 100 + k, 'n': 1500 if tier == 'thorough' else 120})
+    if tier == 'thorough':
+        for k in range(8):
+            s.append({'kind': 'atheris', 'i': 200 + k, 'runs': 6000})
     return s
 
 
 def run_shard(spec, seed, tier):
     acc = core.Acc()
-    if spec['kind'] == 'misc':
+    if spec['kind'] == 'atheris':
+        run_atheris(spec, seed, acc)
+    elif spec['kind'] == 'misc':
         run_misc(spec['n'], seed * 1000 + spec['i'], acc)
     else:
         run_entry(spec['entry'], spec['n'], seed * 1000 + spec['i'], acc, tier)
